@@ -115,13 +115,22 @@ def comp {V : Type} (lit : Nat → V) : Stmt V → Nat → List (Instr Reg V)
   | .loop body, base =>
       [nopI] ++ comp lit body (base + 1) ++ [⟨.jmp, none, [.num (lit base)]⟩, nopI]
 
-/-- every branch of the program uses a suffix that negates its condition -/
+/-- every branch of the program uses a suffix that negates its condition (on the two operands a branch compares) -/
 def NegOk {V : Type} (sem : Sem V) : Stmt V → Prop
   | .seq p q => NegOk sem p ∧ NegOk sem q
-  | .ite c neg _ _ p q => (∀ vals, sem.cond neg vals = !sem.cond c vals) ∧ NegOk sem p ∧ NegOk sem q
-  | .ifThen c neg _ _ p => (∀ vals, sem.cond neg vals = !sem.cond c vals) ∧ NegOk sem p
-  | .while c neg _ _ body => (∀ vals, sem.cond neg vals = !sem.cond c vals) ∧ NegOk sem body
+  | .ite c neg _ _ p q => (∀ x y, sem.cond neg [x, y] = !sem.cond c [x, y]) ∧ NegOk sem p ∧ NegOk sem q
+  | .ifThen c neg _ _ p => (∀ x y, sem.cond neg [x, y] = !sem.cond c [x, y]) ∧ NegOk sem p
+  | .while c neg _ _ body => (∀ x y, sem.cond neg [x, y] = !sem.cond c [x, y]) ∧ NegOk sem body
   | .loop body => NegOk sem body
   | _ => True
+
+/-- executable form of `NegOk` against a table of (condition, branch suffix) pairs -/
+def pairsOk {V : Type} (pairs : List (String × String)) : Stmt V → Bool
+  | .seq p q => pairsOk pairs p && pairsOk pairs q
+  | .ite c neg _ _ p q => pairs.contains (c, neg) && pairsOk pairs p && pairsOk pairs q
+  | .ifThen c neg _ _ p => pairs.contains (c, neg) && pairsOk pairs p
+  | .while c neg _ _ body => pairs.contains (c, neg) && pairsOk pairs body
+  | .loop body => pairsOk pairs body
+  | _ => true
 
 end PV.Core
